@@ -16,6 +16,7 @@ import (
 	"time"
 
 	"verif/sim/core"
+	"verif/sim/hx"
 	_ "verif/sim/props"
 )
 
@@ -79,6 +80,7 @@ func genScenario(p core.Prop, master uint64, tier string, idx int) *core.Scenari
 	sc := p.Gen(rng, tier, idx)
 	sc.Seed = seed
 	sc.Tier = tier
+	sc.Idx = idx
 	return sc
 }
 
@@ -170,6 +172,16 @@ func workerMode(t *testing.T) {
 			if shrunk[key] || len(shrunk) >= maxShrinks || isKnown(v) {
 				continue
 			}
+			if hx.Poisoned.Load() {
+				// a handler goroutine is still spinning: do not shrink, keep the scenario as it is
+				sc2 := sc.Clone()
+				vv := v
+				sc2.Expect = &vv
+				name := fmt.Sprintf("fail-%s-%d-%d.json", p.ID(), idx, len(rec.ReplayFile))
+				writeJSON(filepath.Join(out, name), sc2)
+				rec.ReplayFile = append(rec.ReplayFile, name)
+				continue
+			}
 			shrunk[key] = true
 			min, tries := core.Shrink(t, p, sc, key, shrinkBudget)
 			rec.ShrinkRuns += tries
@@ -197,6 +209,12 @@ func workerMode(t *testing.T) {
 		rec.WallMS = time.Since(start).Milliseconds()
 		if err := enc.Encode(rec); err != nil {
 			t.Fatal(err)
+		}
+		if hx.Poisoned.Load() {
+			os.Remove(curPath)
+			recFile.Sync()
+			fmt.Fprintf(os.Stderr, "WORKER-POISONED %s next=%d\n", wid, idx+stride)
+			os.Exit(0)
 		}
 	}
 	os.Remove(curPath)
